@@ -196,6 +196,32 @@ pub assume_specification<T, P> [std::option::Option::<T>::filter] (o: std::optio
     requires o is Some ==> p.requires((&o->Some_0,)),
     ensures match o { Some(v) => (p.ensures((&v,), true) && out == Some(v)) || (p.ensures((&v,), false) && out is None), None => out is None };
 #[verifier::external_body] pub fn fmt_opaque() -> String { unimplemented!() }
+// ---- std::collections::btree_map::Entry on the generator's table `Mutex<BTreeMap<DevMntIDPair, u8>>`; the table's contents are
+//      `lg.devmap` (sequential: the mutex is held for the whole probe-then-insert)
+pub mod btree_map {
+    use super::*;
+    #[verifier::external_body] #[verifier::reject_recursive_types(K)] #[verifier::reject_recursive_types(V)] pub struct OccupiedEntry<K, V> { _p: PhantomData<(K, V)> }
+    #[verifier::external_body] #[verifier::reject_recursive_types(K)] #[verifier::reject_recursive_types(V)] pub struct VacantEntry<K, V> { _p: PhantomData<(K, V)> }
+    #[verifier::reject_recursive_types(K)] #[verifier::reject_recursive_types(V)] pub enum Entry<K, V> { Occupied(OccupiedEntry<K, V>), Vacant(VacantEntry<K, V>) }
+    impl<K, V> OccupiedEntry<K, V> {
+        pub uninterp spec fn val(&self) -> V;
+        #[verifier::external_body] pub fn get(&self) -> (r: &V) ensures *r == self.val() { unimplemented!() }
+    }
+    impl<K, V> VacantEntry<K, V> { pub uninterp spec fn key(&self) -> K; }
+    impl VacantEntry<DevMntIDPair, u8> {
+        #[verifier::external_body] pub fn insert(self, v: u8, Tracked(lg): Tracked<&mut Lg>)
+            ensures final(lg).devmap == old(lg).devmap.insert(self.key(), v), final(lg).c64 == old(lg).c64, final(lg).c8 == old(lg).c8, final(lg).same_cfg(*old(lg)),
+                    final(lg).store == old(lg).store, final(lg).base == old(lg).base, final(lg).same_logs(*old(lg)),
+        { unimplemented!() }
+    }
+}
+impl MutexGuard<BTreeMap<DevMntIDPair, u8>> {
+    #[verifier::external_body] pub fn entry(&mut self, k: DevMntIDPair, Tracked(lg): Tracked<&mut Lg>) -> (r: btree_map::Entry<DevMntIDPair, u8>)
+        ensures *final(lg) == *old(lg),
+                match r { btree_map::Entry::Occupied(o) => old(lg).devmap.contains_key(k) && o.val() == old(lg).devmap[k],
+                          btree_map::Entry::Vacant(v) => !old(lg).devmap.contains_key(k) && v.key() == k }
+    { unimplemented!() }
+}
 '''
 
 # ---------------------------------------------------------------------------------------------------------------------------------
@@ -274,24 +300,134 @@ pub proof fn lemma_vnum(v: u64)
 // ---- the invariant of the shared state (established by import(): root = 1 with next_inode = 2; kept by do_lookup [C08.lookup.inv];
 //      forget only removes).  Other threads are assumed to keep it (Lg::lock_step).
 pub open spec fn gen_wf(lg: Lg) -> bool {
-    lg.c8.contains_key(lg.k_uid) && lg.c64.contains_key(lg.k_virt) && lg.c64.contains_key(lg.k_next) && lg.c8[lg.k_uid] >= 1
+    lg.k_next != lg.k_virt /* two distinct atomics */ && lg.c8.contains_key(lg.k_uid) && lg.c64.contains_key(lg.k_virt) && lg.c64.contains_key(lg.k_next) && lg.c8[lg.k_uid] >= 1
     && (forall|k: DevMntIDPair| #[trigger] lg.devmap.contains_key(k) ==> 1 <= lg.devmap[k] < lg.c8[lg.k_uid])
     && (forall|k: DevMntIDPair, l: DevMntIDPair| #![trigger lg.devmap[k], lg.devmap[l]] lg.devmap.contains_key(k) && lg.devmap.contains_key(l) && lg.devmap[k] == lg.devmap[l] ==> k == l) // [C08.alloc.prefix_injective]
 }
 // a number the generator may have produced for a virtual inode so far
 pub open spec fn vshape(lg: Lg, n: u64) -> bool { is_virtual(n) && low47(n) < lg.c64[lg.k_virt] }
 pub open spec fn hshape(lg: Lg, n: u64, id: InodeId) -> bool { id.ino <= 0x7fff_ffff_ffffu64 && lg.devmap.contains_key(pair_of(id)) && n == enc(lg.devmap[pair_of(id)], id.ino) }
-pub open spec fn num_ok(lg: Lg, n: u64) -> bool {     // numbers on record (live or remembered) are below the counters
-    if lg.use_host_ino { true } else { n < lg.c64[lg.k_next] }
-}
+// the shape of the number of an inode with identity `id` when host inode numbers are used
+pub open spec fn shape(lg: Lg, n: u64, id: InodeId) -> bool { if id.ino <= 0x7fff_ffff_ffffu64 { hshape(lg, n, id) } else { vshape(lg, n) } }
 pub open spec fn inv(lg: Lg) -> bool {
     lg.store.wf_h() && gen_wf(lg)
+    // numbers allocated from next_inode: everything on record (live or remembered) is below the counter
     && (!lg.use_host_ino ==> (forall|i: Inode| #[trigger] lg.store.data@.contains_key(i) ==> i < lg.c64[lg.k_next])
          && (forall|k: InodeId| #[trigger] lg.store.by_id@.contains_key(k) ==> lg.store.by_id@[k] < lg.c64[lg.k_next])
          && (forall|k: Arc<FileHandle>| #[trigger] lg.store.by_handle@.contains_key(k) ==> lg.store.by_handle@[k] < lg.c64[lg.k_next]))
-    && (lg.use_host_ino ==> (forall|i: Inode| #[trigger] lg.store.data@.contains_key(i) ==> i == 1 || hshape(lg, i, lg.store.data@[i].id) || vshape(lg, i))
+    // numbers derived from the host's: a live inode other than the root carries the number of its identity and, for a host-encoded
+    // number, is on record under its id; a remembered number of a forgotten inode is a virtual one
+    && (lg.use_host_ino ==> (forall|i: Inode| #[trigger] lg.store.data@.contains_key(i) ==> i == 1 || (shape(lg, i, lg.store.data@[i].id)
+                && (lg.store.data@[i].id.ino <= 0x7fff_ffff_ffffu64 ==> lg.store.by_id@.contains_key(lg.store.data@[i].id) && lg.store.by_id@[lg.store.data@[i].id] == i)))
          && (forall|k: InodeId| #[trigger] lg.store.by_id@.contains_key(k) ==> lg.store.live(lg.store.by_id@[k]) || vshape(lg, lg.store.by_id@[k]))
          && (forall|k: Arc<FileHandle>| #[trigger] lg.store.by_handle@.contains_key(k) ==> lg.store.live(lg.store.by_handle@[k]) || vshape(lg, lg.store.by_handle@[k])))
+}
+// ---- the number allocate_inode returns for the file (id, h) when no live inode denotes it (store `s` = lg0.store, under the write lock)
+pub open spec fn alloc_result(o: Lg, n: Lg, id: InodeId, h: Option<FileHandle>, num: u64) -> bool {
+    let rem = o.store.remembered(id, h);
+    if !o.use_host_ino { if rem is Some { num == rem->Some_0 && n.same_alloc(o) } else { num == o.c64[o.k_next] && n.c64 == o.c64.insert(o.k_next, wrap64(num)) && n.c8 == o.c8 && n.devmap == o.devmap } }
+    else if id.ino > 0x7fff_ffff_ffffu64 && rem is Some { num == rem->Some_0 && n.same_alloc(o) }
+    else { gen_post(o, n, id, num) }
+}
+pub proof fn lemma_mono_inv(o: Lg, n: Lg)
+    requires inv(o), n.store == o.store, gen_wf(n), alloc_mono(o, n), o.c64[o.k_next] < u64::MAX,
+    ensures inv(n),                                                                        // the allocation state only grows
+{
+    let s = o.store;
+    assert forall|i: Inode| #[trigger] n.store.data@.contains_key(i) && n.use_host_ino && i != 1 implies shape(n, i, n.store.data@[i].id) by {
+        assert(shape(o, i, s.data@[i].id));
+    }
+}
+pub proof fn lemma_alloc(o: Lg, n: Lg, id: InodeId, h: Option<FileHandle>, num: u64)
+    requires inv(o), o.store.alt(id, h) is None, n.store == o.store, n.same_cfg(o), gen_wf(n), alloc_mono(o, n), alloc_result(o, n, id, h, num),
+    ensures !(o.use_host_ino && h is Some && id.ino <= 0x7fff_ffff_ffffu64) ==> !o.store.live(num),    // [C08.alloc.not_live] the number is not in use
+            !o.use_host_ino && num < u64::MAX ==> num < n.c64[n.k_next],
+            o.use_host_ino ==> shape(n, num, id) && num != 1,
+{
+    broadcast use axiom_hkey, axiom_hkey_arc;
+    let s = o.store;
+    assert(forall|x: u64| x & (1u64 << 55) != 0 ==> x != 1) by (bit_vector);
+    if o.use_host_ino && id.ino > 0x7fff_ffff_ffffu64 && s.remembered(id, h) is Some {
+        // a remembered number whose inode is gone is a virtual one
+        match h {
+            Some(hh) => { assert(s.by_handle@.contains_key(hkey(hh))); assert(s.by_h(hh) is None); assert(!s.live(num)); assert(vshape(o, num)); }
+            None => { assert(s.by_id@.contains_key(id)); assert(s.by_i(id) is None); assert(!s.live(num)); assert(vshape(o, num)); }
+        }
+        assert(vshape(n, num));
+    }
+    if o.use_host_ino && !(id.ino > 0x7fff_ffff_ffffu64 && s.remembered(id, h) is Some) {
+        let p = n.devmap[pair_of(id)];
+        assert(p >= 1);
+        if id.ino <= 0x7fff_ffff_ffffu64 {
+            lemma_enc(p, id.ino, p, id.ino);
+            if s.live(num) && !(h is Some) {
+                let d = s.data@[num];
+                assert(num != 1);
+                assert(hshape(o, num, d.id)) by { lemma_enc(p, id.ino, p, id.ino); }
+                lemma_enc(o.devmap[pair_of(d.id)], d.id.ino, p, id.ino);
+                assert(d.id == id);
+                assert(s.by_i(id) == Some(d));
+                assert(false);
+            }
+        } else {
+            let v = o.c64[o.k_virt];
+            lemma_vnum(v);
+            lemma_enc(p, vnum(v), p, vnum(v));
+            assert(is_virtual(num) && low47(num) == v);
+            assert(vshape(n, num));
+            if s.live(num) {
+                let d = s.data@[num];
+                if d.id.ino <= 0x7fff_ffff_ffffu64 { lemma_enc(o.devmap[pair_of(d.id)], d.id.ino, p, vnum(v)); }
+                assert(false);
+            }
+        }
+    }
+}
+// ---- inserting the new inode keeps the invariant
+pub proof fn lemma_insert(o: Lg, n: Lg, d: Arc<InodeData>, h: Option<FileHandle>)
+    requires inv(o), o.store.alt(d.id, h) is None, n.same_alloc(o),
+             (match h { Some(hh) => d.handle is Handle && d.handle->Handle_0.handle == hkey(hh), None => !(d.handle is Handle) }),
+             n.store.data@ == o.store.data@.insert(d.inode, d), n.store.by_id@ == o.store.by_id@.insert(d.id, d.inode),
+             d.handle is Handle ==> n.store.by_handle@ == o.store.by_handle@.insert(d.handle->Handle_0.handle, d.inode),
+             !(d.handle is Handle) ==> n.store.by_handle@ == o.store.by_handle@,
+             !o.use_host_ino ==> d.inode < o.c64[o.k_next],
+             o.use_host_ino ==> shape(o, d.inode, d.id) && d.inode != 1,
+    ensures inv(n),                                                                       // [C08.lookup.inv]
+{
+    broadcast use axiom_hkey, axiom_hkey_arc;
+    let s = o.store; let t = n.store;
+    assert forall|i: Inode| #[trigger] t.data@.contains_key(i) implies t.data@[i].inode == i
+            && (t.data@[i].handle is Handle ==> t.by_handle@.contains_key(t.data@[i].handle->Handle_0.handle) && t.by_handle@[t.data@[i].handle->Handle_0.handle] == i)
+            && (!(t.data@[i].handle is Handle) ==> t.by_id@.contains_key(t.data@[i].id) && t.by_id@[t.data@[i].id] == i) by {
+        if i != d.inode {
+            let e = s.data@[i];
+            assert(s.data@.contains_key(i));
+            if e.handle is Handle && h is Some && e.handle->Handle_0.handle == hkey(h->Some_0) { assert(s.by_h(h->Some_0) == Some(e)); assert(false); }
+            if !(e.handle is Handle) && e.id == d.id { assert(s.by_i(d.id) == Some(e)); assert(false); }
+        }
+    }
+    if o.use_host_ino {
+        assert forall|i: Inode| #[trigger] t.data@.contains_key(i) && i != 1 implies shape(n, i, t.data@[i].id)
+                && (t.data@[i].id.ino <= 0x7fff_ffff_ffffu64 ==> t.by_id@.contains_key(t.data@[i].id) && t.by_id@[t.data@[i].id] == i) by {
+            if i != d.inode {
+                let e = s.data@[i];
+                assert(s.data@.contains_key(i));
+                assert(shape(o, i, e.id));
+                if e.id == d.id && e.id.ino <= 0x7fff_ffff_ffffu64 { assert(i == d.inode); }
+            }
+        }
+        assert forall|k: InodeId| #[trigger] t.by_id@.contains_key(k) implies t.live(t.by_id@[k]) || vshape(n, t.by_id@[k]) by {
+            if k != d.id { assert(s.by_id@.contains_key(k)); assert(s.live(s.by_id@[k]) || vshape(o, s.by_id@[k])); }
+        }
+        assert forall|k: Arc<FileHandle>| #[trigger] t.by_handle@.contains_key(k) implies t.live(t.by_handle@[k]) || vshape(n, t.by_handle@[k]) by {
+            if !(d.handle is Handle && k == d.handle->Handle_0.handle) { assert(s.by_handle@.contains_key(k)); assert(s.live(s.by_handle@[k]) || vshape(o, s.by_handle@[k])); }
+        }
+    } else {
+        assert forall|k: InodeId| #[trigger] t.by_id@.contains_key(k) implies t.by_id@[k] < n.c64[n.k_next] by { if k != d.id { assert(s.by_id@.contains_key(k)); } }
+        assert forall|k: Arc<FileHandle>| #[trigger] t.by_handle@.contains_key(k) implies t.by_handle@[k] < n.c64[n.k_next] by {
+            if !(d.handle is Handle && k == d.handle->Handle_0.handle) { assert(s.by_handle@.contains_key(k)); } }
+        assert forall|i: Inode| #[trigger] t.data@.contains_key(i) implies i < n.c64[n.k_next] by { if i != d.inode { assert(s.data@.contains_key(i)); } }
+    }
 }
 impl<S: BitmapSlice + Send + Sync> PassthroughFs<S> {
     // the token speaks about this file system's counters and configuration
@@ -320,13 +456,97 @@ pub open spec fn is_one_ref(ev: RcEv, a: AtomicU64) -> bool {
 // "the references held for each file equal the entries returned to the client for it": between `o` and `n` this request gave
 // exactly ONE reference, to inode `ino`: one count went up by one on that inode's data, or the inode was created with count 1
 pub open spec fn granted(o: Lg, n: Lg, ino: Inode) -> bool {
-    ||| (n.ins == o.ins && n.rc.len() == o.rc.len() + 1 && n.rc.drop_last() == o.rc && n.store == n.base
+    ||| (n.ins == o.ins && n.rc.len() == o.rc.len() + 1 && n.rc.drop_last() =~= o.rc && n.store == n.base
          && n.base.live(ino) && n.base.data@[ino].inode == ino && is_one_ref(n.rc.last(), n.base.data@[ino].refcount))
-    ||| (n.rc == o.rc && n.ins.len() == o.ins.len() + 1 && n.ins.drop_last() == o.ins
+    ||| (n.rc == o.rc && n.ins.len() == o.ins.len() + 1 && n.ins.drop_last() =~= o.ins
          && n.ins.last().inode == ino && n.ins.last().refcount.init() == 1 && n.store.data@ == n.base.data@.insert(ino, n.ins.last()))
 }
 pub open spec fn no_grant(o: Lg, n: Lg) -> bool { n.rc == o.rc && n.ins == o.ins && n.store == n.base }
+
+// ---- allocation: what UniqueInodeGenerator::get_unique_inode does to the generator state, and the number it returns
+pub open spec fn wrap64(v: u64) -> u64 { if v == u64::MAX { 0u64 } else { (v + 1) as u64 } }
+pub open spec fn devmap_step(o: Lg, n: Lg, p: DevMntIDPair) -> bool {
+    if o.devmap.contains_key(p) { n.devmap == o.devmap && n.c8 == o.c8 }
+    else { o.c8[o.k_uid] < 255 && n.devmap == o.devmap.insert(p, o.c8[o.k_uid]) && n.c8 == o.c8.insert(o.k_uid, (o.c8[o.k_uid] + 1) as u8) }
+}
+pub open spec fn gen_post(o: Lg, n: Lg, id: InodeId, num: u64) -> bool {
+    devmap_step(o, n, pair_of(id)) && n.devmap.contains_key(pair_of(id))
+    && (if id.ino <= 0x7fff_ffff_ffffu64 { n.c64 == o.c64 && num == enc(n.devmap[pair_of(id)], id.ino) }       // same id => same number, always
+        else { o.c64[o.k_virt] <= 0x7fff_ffff_ffffu64 && n.c64 == o.c64.insert(o.k_virt, (o.c64[o.k_virt] + 1) as u64)
+               && num == enc(n.devmap[pair_of(id)], vnum(o.c64[o.k_virt])) })                                  // a virtual number never handed out before
+}
+// the allocation state only grows: prefixes are kept, counters do not go back
+pub open spec fn alloc_mono(o: Lg, n: Lg) -> bool {
+    n.same_cfg(o) && n.c64.dom() =~= o.c64.dom() && n.c8.dom() =~= o.c8.dom()
+    && (forall|k: DevMntIDPair| #[trigger] o.devmap.contains_key(k) ==> n.devmap.contains_key(k) && n.devmap[k] == o.devmap[k])
+    && n.c64[o.k_virt] >= o.c64[o.k_virt] && (n.c64[o.k_next] >= o.c64[o.k_next] || o.c64[o.k_next] == u64::MAX)
+}
 '''
+
+
+# ---------------------------------------------------------------------------------------------------------------------------------
+# PassthroughFs::do_lookup(parent, name): the contract, from the property
+ID = 'Self::lk_id(parent, name@)'
+HH = 'self.lk_h(parent, name@)'
+LOOKUP_REQ = [
+    'self.tok(*old(lg))', 'inv(*old(lg))',
+    # the capabilities of a lookup of the host file (parent, name) denotes - see PassthroughFs::lookup_caps
+    'self.lookup_caps(%s, %s) // [C08.lookup.caps]' % (ID, HH),
+    # the only name-based open: the parent directory's descriptor and the client's name, the root's ".." being opened as "."
+    'forall|fd: i32, nm: Seq<u8>| #[trigger] open_allowed(fd, nm) <==> fd == fd_of(parent) && nm == Self::lk_name(parent, name@) // [C08.lookup.root_parent]',
+]
+LOOKUP_ENS = [
+    'final(lg).fg == old(lg).fg && final(lg).same_cfg(*old(lg))',
+    # "errors add no reference"
+    'res is Err ==> no_grant(*old(lg), *final(lg)) // [C08.lookup.err_no_ref]',
+    # "the references held for each file equal the entries returned to the client for it": exactly one, to the inode returned
+    'res is Ok ==> granted(*old(lg), *final(lg), res->Ok_0.inode) // [C08.lookup.one_ref]',
+    # "a host file has one inode number": an inode that denotes the file is re-used, and only then
+    'res is Ok && final(lg).base.alt(%s, %s) is Some ==> res->Ok_0.inode == final(lg).base.alt(%s, %s)->Some_0.inode && final(lg).ins == old(lg).ins // [C08.lookup.found]' % (ID, HH, ID, HH),
+    'res is Ok && final(lg).base.alt(%s, %s) is None ==> final(lg).rc == old(lg).rc && final(lg).ins.last().id == %s // [C08.lookup.new]' % (ID, HH, ID),
+    # "an inode number denotes one host file": a new inode never takes the number of a live one
+    'res is Ok && final(lg).base.alt(%s, %s) is None && !(self.cfg.use_host_ino && %s is Some && %s.ino <= 0x7fff_ffff_ffffu64) ==> !final(lg).base.live(res->Ok_0.inode) // [C08.lookup.one_file]' % (ID, HH, HH, ID),
+    'res is Ok && final(lg).base.alt(%s, %s) is None && (self.cfg.use_host_ino && %s is Some && %s.ino <= 0x7fff_ffff_ffffu64) ==> !final(lg).base.live(res->Ok_0.inode) // [C08.lookup.one_file.hostino_handles]' % (ID, HH, HH, ID),
+    # "a file looked up again after being forgotten gets the same number"
+    'res is Ok && final(lg).base.alt(%s, %s) is None && final(lg).base.remembered(%s, %s) is Some && (!self.cfg.use_host_ino || %s.ino > 0x7fff_ffff_ffffu64) '
+    '==> res->Ok_0.inode == final(lg).base.remembered(%s, %s)->Some_0 // [C08.lookup.same_number]' % (ID, HH, ID, HH, ID, ID, HH),
+    'res is Ok && final(lg).base.alt(%s, %s) is None && self.cfg.use_host_ino && %s.ino <= 0x7fff_ffff_ffffu64 '
+    '==> hshape(*final(lg), res->Ok_0.inode, %s) // [C08.lookup.same_number.hostino]' % (ID, HH, ID, ID),
+    'res is Ok ==> res->Ok_0.attr == Self::lk_st(parent, name@).st // [C08.lookup.attr]',
+    # the invariant of the shared state is kept (the counter cannot wrap before 2^64 allocations)
+    'old(lg).c64[old(lg).k_next] < u64::MAX ==> inv(*final(lg)) // [C08.lookup.inv]',
+]
+LOOP_INV = '''
+                invariant_except_break
+                    found is None, lg.rc == old(lg).rc,
+                invariant
+                    lg.ins == old(lg).ins, lg.fg == old(lg).fg, lg.same_alloc(*old(lg)), inv(*lg), lg.store == lg.base,
+                    self.tok(*old(lg)), self.lookup_caps(id, handle_opt), id == %s, handle_opt == %s,
+                ensures
+                    found is None ==> lg.rc == old(lg).rc && lg.store == lg.base,
+                    found is Some ==> lg.store == lg.base && lg.base.alt(id, handle_opt) is Some && found == Some(lg.base.alt(id, handle_opt)->Some_0.inode)
+                        && lg.rc.len() == old(lg).rc.len() + 1 && lg.rc.drop_last() =~= old(lg).rc && is_one_ref(lg.rc.last(), lg.base.alt(id, handle_opt)->Some_0.refcount),
+            {''' % (ID, HH)
+LOOKUP_SPLICES = [
+    ('^', 'after', '''broadcast use axiom_cstr_no_nul, axiom_hkey, axiom_hkey_arc; let ghost name0 = name@; let ghost b0 = name@.push(0u8); let ghost mut lg0 = *lg; let ghost mut lg1 = *lg;
+        proof {
+            axiom_cstr_no_nul(name);
+            let dd = seq![46u8, 46u8]; let pp = seq![46u8, 46u8, 0u8];
+            if name0 == dd { assert(b0 =~= pp); assert(b0.subrange(0, 3) =~= b0); }
+            if pp.is_prefix_of(b0) {
+                assert(b0.subrange(0, 3)[0] == b0[0] && b0.subrange(0, 3)[1] == b0[1] && b0.subrange(0, 3)[2] == b0[2]);
+                if name0.len() > 2 { assert(name0[2] == b0[2]); }
+                assert(name0 =~= dd);
+            }
+            assert(pp.is_prefix_of(b0) <==> name0 == dd);
+        }'''),
+    # the name test: `..\\0` is a prefix of the NUL-terminated name exactly when the name is ".."
+    ('let dir = self.inode_map.get(parent', 'before', 'proof { assert(seq![46u8, 0u8].drop_last() =~= seq![46u8]); assert(name@ == Self::lk_name(parent, name0)); }'),
+    ("'search: loop {", 'replace', "'search: loop" + LOOP_INV),
+    ('let inode = self.allocate_inode(', 'before', 'proof { lg0 = *lg; }'),
+    ('if inode > VFS_MAX_INO {', 'before', 'proof { lemma_alloc(lg0, *lg, id, handle_opt, inode); lg1 = *lg; }'),
+    ('let (entry_timeout, attr_timeout) =', 'before', 'proof { if found is None && lg.ins.len() == old(lg).ins.len() + 1 { lemma_insert(lg1, *lg, lg.ins.last(), handle_opt); } }'),
+]
 
 
 def _fn_of(unit, name):
@@ -358,6 +578,19 @@ def unit(root='/repo'):
         return fn
 
     LOCK_POST = 'final(lg).lock_step(*old(lg))'
+    REM = 'inodes.remembered(*id, opt_h(handle_opt))'
+    ALLOC_ENS = [
+        'final(lg).store == old(lg).store && final(lg).base == old(lg).base && final(lg).same_logs(*old(lg))',
+        'gen_wf(*final(lg)) && alloc_mono(*old(lg), *final(lg)) // [C08.alloc.monotone]',
+        'inv(*old(lg)) && old(lg).c64[old(lg).k_next] < u64::MAX ==> inv(*final(lg)) // [C08.alloc.inv]',
+        # "a file looked up again after being forgotten gets the same number": the record forget keeps is consulted first
+        'r is Ok && !self.cfg.use_host_ino && %s is Some ==> r->Ok_0 == %s->Some_0 && final(lg).same_alloc(*old(lg)) // [C08.alloc.same_number]' % (REM, REM),
+        # otherwise a number never handed out before
+        'r is Ok && !self.cfg.use_host_ino && %s is None ==> r->Ok_0 == old(lg).c64[self.next_inode] '
+        '&& final(lg).c64 == old(lg).c64.insert(self.next_inode, wrap64(r->Ok_0)) && final(lg).c8 == old(lg).c8 && final(lg).devmap == old(lg).devmap // [C08.alloc.fresh]' % REM,
+        'r is Ok && self.cfg.use_host_ino && id.ino > 0x7fff_ffff_ffffu64 && %s is Some ==> r->Ok_0 == %s->Some_0 && final(lg).same_alloc(*old(lg)) // [C08.alloc.same_number.virtual]' % (REM, REM),
+        'r is Ok && self.cfg.use_host_ino && !(id.ino > 0x7fff_ffff_ffffu64 && %s is Some) ==> gen_post(*old(lg), *final(lg), *id, r->Ok_0) // [C08.alloc.host_encoding]' % REM,
+    ]
     items = [
         Raw(pre),
         ByteConst(VMOD, 'CURRENT_DIR_CSTR'), ByteConst(VMOD, 'PARENT_DIR_CSTR'),
@@ -398,6 +631,61 @@ def unit(root='/repo'):
                ensures=['match r { Some(v) => self.by_handle@.contains_key(hkey(*handle)) && *v == self.by_handle@[hkey(*handle)], None => !self.by_handle@.contains_key(hkey(*handle)) }']),
             Fn(STORE, S, 'get_by_handle', props=['C08'],
                ensures=['match r { Some(v) => self.by_h(*handle) == Some(*v), None => self.by_h(*handle) is None } // [C08.store.by_handle]']),
+        ]),
+        Group('impl InodeMap {', [
+            tok(Fn(PT, IM, 'get', props=['C08'],
+                   ensures=[LOCK_POST,
+                            'match r { Ok(d) => final(lg).store.live(inode) && d == final(lg).store.data@[inode], Err(_) => !final(lg).store.live(inode) } // [C08.map.get]'],
+                   splices=[('^', 'after', 'broadcast use axiom_arc_cloned;')]), callees=['read']),
+            Fn(PT, IM, 'get_inode_locked', props=['C08'],
+               ensures=['r == inodes.remembered(*id, opt_h(handle)) // [C08.map.remembered]']),
+            Fn(PT, IM, 'get_alt_locked', props=['C08'], canary=True,
+               ensures=['r == inodes.alt(*id, opt_h(handle)) // [C08.map.alt]'],
+               splices=[('^', 'after', 'broadcast use axiom_arc_cloned;'),
+                        ('|h|', 'closure', '|h: &FileHandle| -> (q: Option<&Arc<InodeData>>) ensures (match q { Some(v) => inodes.by_h(*h) == Some(*v), None => inodes.by_h(*h) is None })'),
+                        ('.or_else(||', 'closure', '.or_else(|| -> (q: Option<&Arc<InodeData>>) ensures (match q { Some(v) => inodes.by_i(*id) == Some(*v) && (handle is None || !(v.handle is Handle)), None => inodes.by_i(*id) is None || !(handle is None || !(inodes.by_i(*id)->Some_0.handle is Handle)) })'),
+                        ('|data|', 'closure', '|data: &&Arc<InodeData>| -> (b: bool) ensures b == (handle is None || !(data.handle is Handle))')]),
+            tok(Fn(PT, IM, 'get_alt', props=['C08'],
+                   ensures=[LOCK_POST, 'r == final(lg).store.alt(*id, opt_h(handle)) // [C08.map.alt]']), callees=['read']),
+            tok(Fn(PT, IM, 'get_map_mut', props=['C08'], ensures=[LOCK_POST, 'r.st == final(lg).store']), callees=['write']),
+            tok(Fn(PT, IM, 'insert_locked', props=['C08'],
+                   requires=['*old(inodes) == old(lg).store', 'insert_allowed(old(lg).base, data)'],
+                   ensures=[c.split('//')[0].strip().rstrip(',').replace('final(self)', 'final(inodes)').replace('old(self)', 'old(inodes)') for c in _fn_of(inu, 'insert').ensures]
+                   + ['final(lg).store == *final(inodes) && final(lg).base == old(lg).base && final(lg).ins == old(lg).ins.push(data)',
+                      'final(lg).rc == old(lg).rc && final(lg).fg == old(lg).fg && final(lg).same_alloc(*old(lg))']), callees=['insert']),
+        ]),
+        Group('impl UniqueInodeGenerator {', [
+            tok(Fn(UTIL, 'impl UniqueInodeGenerator', 'get_unique_inode', props=['C08'], canary=True,
+                   sig_subst=[('io::Result<libc::ino64_t>', 'io::Result<u64>')],
+                   body_resub=[(r'io::Error::other\(\s*"[^"]*",?\s*\)', 'io::Error::other(fmt_opaque())', 'every: the text of an error message (opaque string)')],
+                   requires=['gen_wf(*old(lg))', 'old(lg).k_virt == self.next_virtual_inode && old(lg).k_uid == self.next_unique_id'],
+                   ensures=['final(lg).store == old(lg).store && final(lg).base == old(lg).base && final(lg).same_logs(*old(lg))',
+                            'gen_wf(*final(lg)) // [C08.alloc.prefix_injective] prefixes stay distinct per (dev, mnt)',
+                            'alloc_mono(*old(lg), *final(lg)) // [C08.alloc.monotone]',
+                            'r is Ok ==> gen_post(*old(lg), *final(lg), *id, r->Ok_0) // [C08.alloc.host_encoding] same (dev, mnt, ino) => same number; large inos get a never-used virtual number',
+                            ],
+                   ), callees=['entry', 'insert', 'load', 'fetch_add']),
+        ]),
+        Group(IMPL + ' {', [
+            # system-call wrappers: capability in, uninterpreted result out (bodies not extracted)
+            Fn(PT, IMPL, 'open_file_restricted', external_body=True, props=['C08'],
+               requires=['open_allowed(dir.sfd(), pathname@) // [open]'],
+               ensures=['r is Ok ==> r->Ok_0.sfd() == host_open(dir.sfd(), pathname@)']),
+            Fn(PT, IMPL, 'to_openable_handle', external_body=True, props=['C08'],
+               ensures=['r is Ok ==> r->Ok_0.handle == hkey(fh)']),
+            Fn(PT, IMPL, 'open_file_and_handle', props=['C08'],
+               requires=['open_allowed(dir.sfd(), name@)'],
+               ensures=['r is Ok ==> ({ let fd = host_open(dir.sfd(), name@); r->Ok_0.0.sfd() == fd && r->Ok_0.2 == host_statx(fd) '
+                        '&& r->Ok_0.1 == (if self.cfg.inode_file_handles { host_fh(fd) } else { None::<FileHandle> }) }) // [C08.lookup.opened]']),
+            tok(Fn(PT, IMPL, 'allocate_inode', props=['C08'], canary=True,
+                   requires=['self.tok(*old(lg))', 'gen_wf(*old(lg))'],
+                   ensures=ALLOC_ENS,
+                   splices=[('^', 'after', 'let ghost o = *lg; proof { assert forall|n: Lg| n.store == o.store && gen_wf(n) && #[trigger] alloc_mono(o, n) && inv(o) && o.c64[o.k_next] < u64::MAX implies inv(n) by { lemma_mono_inv(o, n); } }')]),
+                callees=['fetch_add', 'get_unique_inode'], extra_rules=('R32',)),
+            tok(Fn(PT, IMPL, 'do_lookup', props=['C08'], canary=True, ret_name='res',
+                   attrs=['#[verifier::exec_allows_no_decreases_clause]'],
+                   requires=LOOKUP_REQ, ensures=LOOKUP_ENS, splices=LOOKUP_SPLICES),
+                callees=['get', 'get_alt', 'compare_exchange', 'fetch_add', 'get_map_mut', 'allocate_inode'], path_callees=['insert_locked']),
         ]),
     ]
     return Unit('ptlookup', items, preludes=['base.rs', 'stdmodel.rs'],
